@@ -5,6 +5,9 @@ from metapype.model.node import Node
 
 from vf.runner import CaseTimeout, Violation, hyp_machine, hyp_search, machine_violation, time_limit
 
+# element names a library may treat specially (namespace operations have to treat every node alike)
+NODE_NAMES = ["dataset", "metadata", "additionalMetadata", "references", "para", "eml", "title", "description", "n"]
+
 ID = "C13"
 RULE = ("Operations attach (add_child), detach (remove_child), declare (add_namespace incl. re-declaration with the same "
         "or a new URI), remove (remove_namespace) over small forests, and in the state machine also the bulk helpers in "
@@ -151,7 +154,7 @@ def ops_for(n, prefixes):
 
 def rebuild(n, path):
     Node.store.clear()
-    nodes = [Node(f"n{i}") for i in range(n)]
+    nodes = [Node(NODE_NAMES[i % len(NODE_NAMES)]) for i in range(n)]
     m = Model(n)
     for op in path:
         real_apply(nodes, op)
@@ -263,7 +266,7 @@ class NsMachine(RuleBasedStateMachine):
     def setup(self, n):
         Node.store.clear()
         self.n = n
-        self.nodes = [Node(f"n{i}") for i in range(n)]
+        self.nodes = [Node(NODE_NAMES[i % len(NODE_NAMES)]) for i in range(n)]
         self.m = Model(n)
         self.history = []
         self.nontrivial = False
@@ -400,7 +403,7 @@ def check_sequence(n, ops):
     """apply the operations one after another on ONE forest (natural allocation pattern) and compare after each"""
     case = {"nodes": n, "sequence": [list(o) for o in ops]}
     Node.store.clear()
-    nodes = [Node(f"n{i}") for i in range(n)]
+    nodes = [Node(NODE_NAMES[i % len(NODE_NAMES)]) for i in range(n)]
     m = Model(n)
     for op in ops:
         if not m.enabled(op):
@@ -473,7 +476,7 @@ def replay_bulk(n, hist):
     class Dummy:
         pass
     Node.store.clear()
-    nodes = [Node(f"n{i}") for i in range(n)]
+    nodes = [Node(NODE_NAMES[i % len(NODE_NAMES)]) for i in range(n)]
     m = Model(n)
     for op in hist:
         if op[0] == "bulk":
